@@ -62,6 +62,8 @@ def run(ctx):
     n = 300 if ctx.tier == "quick" else 6000
     for k in range(n):
         cases.append(gen_system_case(r, cfg, rel=True, heal=True, rematch=(k % 6 == 0), removals=(k % 3 != 0)))
+    for k in range(n // 5):
+        cases.append(gen_gap_replay_case(r, cfg, rel=True, heal=True))
     count_ops(ctx, cases)
     ctx.differential(ENGINE, cases, nontrivial=nontrivial_system, oracle=oracle)
 
